@@ -12,6 +12,7 @@ package core
 
 import (
 	"bytes"
+	"strings"
 	"context"
 	"errors"
 	"fmt"
@@ -86,6 +87,8 @@ type c13Net struct {
 	epoch uint32
 	group *key.Group
 	pc    net.Client
+
+	onStopHang func(n *c13Node, dump string)
 }
 
 // c13StoreTap decorates the base chain.Store of a BeaconProcess (vfhook wrap "core.dbstore").
@@ -162,24 +165,56 @@ func (nt *c13Net) close() {
 		wg.Add(1)
 		go func(n *c13Node) {
 			defer wg.Done()
-			nt.stopNode(n)
+			if ok, dump := nt.stopNode(n); !ok && nt.onStopHang != nil {
+				nt.onStopHang(n, dump)
+			}
 		}(n)
 	}
 	wg.Wait()
 	vfhook.SetWrap(nil)
 }
 
-func (nt *c13Net) stopNode(n *c13Node) {
+// stopNode stops a daemon; it gives up after 20 s (DrandDaemon.Stop has been seen to hang after a failed DKG) and
+// then returns false together with the stacks of the goroutines inside Stop.
+func (nt *c13Net) stopNode(n *c13Node) (bool, string) {
 	if n.stopped.Swap(true) {
-		return
+		return true, ""
 	}
-	ctx, cancel := context.WithTimeout(context.Background(), 8*time.Second)
-	defer cancel()
-	n.daemon.Stop(ctx)
+	done := make(chan struct{})
+	go func() {
+		defer close(done)
+		ctx, cancel := context.WithTimeout(context.Background(), 8*time.Second)
+		defer cancel()
+		n.daemon.Stop(ctx)
+		select {
+		case <-n.daemon.WaitExit():
+		case <-time.After(8 * time.Second):
+		}
+	}()
 	select {
-	case <-n.daemon.WaitExit():
-	case <-time.After(8 * time.Second):
+	case <-done:
+		return true, ""
+	case <-time.After(20 * time.Second):
+		return false, c13FilterDump(vfGoroutineDump(), "DrandDaemon).Stop", "BeaconProcess).Stop", "dkg.(*Process).Close")
 	}
+}
+
+// c13FilterDump keeps the goroutines of a dump whose stack mentions one of the substrings.
+func c13FilterDump(dump string, subs ...string) string {
+	var keep []string
+	for _, g := range strings.Split(dump, "\n\n") {
+		for _, s := range subs {
+			if strings.Contains(g, s) {
+				keep = append(keep, g)
+				break
+			}
+		}
+	}
+	out := strings.Join(keep, "\n\n")
+	if len(out) > 6000 {
+		out = out[:6000] + "…"
+	}
+	return out
 }
 
 // addNodes creates k more daemons with real file key stores under nt.dir/node-<i>.
